@@ -37,7 +37,7 @@ ASSUMPTIONS = [
     "generic for a specialised annotation, non-set Set views, omitted argument where the annotation admits Missing/Any, unknown keyword arguments",
     "annotation forms outside the vocabulary (list[...], dict[...], bare Sequence/tuple, recursive aliases) are not generated",
 ]
-MINIMUMS = {"monitor:accepts-conforming": 15000, "monitor:rejects-violating": 20000, "monitor:stored-faithfully": 15000, "breakers_below_top": 3000, "set:terms": 400, "monitor:default-validated": 500, "monitor:required-argument": 300, "classes_with_two_generic_bases": 200, "values_checked_through_typevar": 1000, "values_checked_through_typevar-subclass": 1000, "values_checked_through_typevar-bound": 1000, "classes_with_implementation_like_attribute_names": 100, "same_named_subclass_probes": 4, "self_reference_probes": 37, "postponed_annotation_probes": 4, "type_arguments_spelled_through_aliases": 6}
+MINIMUMS = {"monitor:accepts-conforming": 15000, "monitor:rejects-violating": 20000, "monitor:stored-faithfully": 15000, "breakers_below_top": 3000, "set:terms": 400, "monitor:default-validated": 500, "monitor:required-argument": 300, "classes_with_two_generic_bases": 200, "values_checked_through_typevar": 1000, "values_checked_through_typevar-subclass": 1000, "values_checked_through_typevar-bound": 1000, "classes_with_implementation_like_attribute_names": 100, "same_named_subclass_probes": 4, "self_reference_probes": 110, "annotations_inside_a_wrapper": 300, "postponed_annotation_probes": 4, "type_arguments_spelled_through_aliases": 6, "defaults_changed_in_place_between_constructions": 100}
 JOBS = {"quick": 4, "thorough": 16}
 LEVEL_TEXT = (
     "All annotation terms up to depth 1 (413 terms, quick) / depth 2 (4.6k terms, thorough) and seeded random terms up to depth 4 - covering None, bool, int, float, str, bytes, UUID, "
@@ -124,12 +124,20 @@ class Runner:
             if argument is None:
                 variant = self.variant = "plain"
                 lines = [f"class {name}(State):"]
-        for an, term, default in attrs:
+        for ai, (an, term, default) in enumerate(attrs):
+            spelled = A.render(term)
+            # the wrappers that say something about the attribute, not about its values: the annotation means what it means without them
+            if (self.n + ai) % 9 == 0:
+                spelled = f"Final[{spelled}]"
+                self.R.count("annotations_inside_a_wrapper")
+            elif (self.n + ai) % 9 == 1:
+                spelled = f"Annotated[{spelled}, 'documented']"
+                self.R.count("annotations_inside_a_wrapper")
             if default is NODEFAULT:
-                lines.append(f"    {an}: {A.render(term)}")
+                lines.append(f"    {an}: {spelled}")
             else:
                 self.N.ns[f"_dflt_{self.n}_{an}"] = default
-                lines.append(f"    {an}: {A.render(term)} = _dflt_{self.n}_{an}")
+                lines.append(f"    {an}: {spelled} = _dflt_{self.n}_{an}")
         if variant == "subclass":
             lines += [f"class {name}S({name}):", "    pass"]
         if variant == "typevar-bound":
@@ -354,6 +362,35 @@ class Runner:
             elif mode == "good":
                 ok = status == "ok" and A.normal(getattr(res, an, None), N.State) == A.normal(default, N.State)
                 self.R.monitor("default-validated", ok, where={"top": top_kind(term), "kind": "conforming-default-not-used", "status": status, "variant": variant, **self.vflags}, detail=f"{an}: {A.render(term)} default {default!r}, construction without it -> {res!r}", case=case)
+                if ok and type(default) in (list, dict, set):
+                    # the default is a live object of the program (a registry filled while plugins load): what a construction without the
+                    # argument gets is the defaulted value AS IT IS THEN - checked and converted like a supplied one
+                    def put(content: Any) -> None:
+                        default.clear()
+                        (default.extend if type(default) is list else default.update)(content)
+
+                    was = A.normal(default, N.State)
+                    for _ in range(6):
+                        try:
+                            v2 = A.conforming(N, term, rng)
+                        except BaseException:  # noqa: BLE001
+                            continue
+                        if type(v2) is type(default) and A.conforms(N, term, v2) is True and A.normal(v2, N.State) != was:
+                            put(v2)
+                            status, res = self.construct(cls, kw)
+                            self.R.count("defaults_changed_in_place_between_constructions")
+                            self.R.monitor("default-validated", status == "ok" and A.normal(getattr(res, an, None), N.State) == A.normal(v2, N.State),
+                                           where={"top": top_kind(term), "kind": "defaulted-value-of-an-earlier-construction", "status": status, "variant": variant},
+                                           detail=f"{an}: {A.render(term)} default object now holds {default!r}, construction without the argument -> {res!r}", case=case)
+                            break
+                    for cand in rng.sample(self.battery, len(self.battery)):
+                        if type(cand) is type(default) and A.conforms(N, term, cand) is False:
+                            put(cand)
+                            status, res = self.construct(cls, kw)
+                            self.R.count("defaults_changed_in_place_between_constructions")
+                            self.R.monitor("default-validated", status != "ok", where={"top": top_kind(term), "kind": "violating-default-accepted", "variant": variant, "after": "earlier-construction"},
+                                           detail=f"{an}: {A.render(term)} default object now holds the violating {default!r}, accepted -> {getattr(res, an, None)!r}", case=case)
+                            break
             else:
                 self.R.monitor("default-validated", status != "ok", where={"top": top_kind(term), "kind": "violating-default-accepted"}, detail=f"{an}: {A.render(term)} violating default {default!r} accepted -> {getattr(res, an, None)!r}", case=case)
             # one breaker in this attribute while the rest conforms
@@ -433,13 +470,23 @@ def same_named_subclass_probes(R: Recorder) -> None:
 def self_reference_probes(R: Recorder) -> None:
     """`typing.Self` in attribute annotations (bare, in a union, inside containers) of a class and of its subclasses: for each class Self
     means that class - an instance of the class or of a subclass of it conforms, an instance of its parent or of a sibling does not"""
-    from typing import Self
+    for wrapper in ("", "Final", "Annotated"):
+        _self_reference_probes(R, wrapper)
+
+
+def _self_reference_probes(R: Recorder, wrapper: str) -> None:
+    from typing import Annotated, Final, Self
 
     from haiway import State
 
-    ns: dict[str, Any] = {"State": State, "Self": Self, "Sequence": Sequence, "Mapping": Mapping}
+    ns: dict[str, Any] = {"State": State, "Self": Self, "Sequence": Sequence, "Mapping": Mapping, "Final": Final, "Annotated": Annotated}
+
+    def w(annotation: str) -> str:
+        # wrappers that say something about the attribute (not about its values) leave the meaning of the annotation alone
+        return {"": annotation, "Final": f"Final[{annotation}]", "Annotated": f"Annotated[{annotation}, 'documented']"}[wrapper]
+
     exec(compile(  # noqa: S102
-        "class Node(State):\n    name: str\n    next: Self | None = None\n    kids: Sequence[Self] = ()\n    table: Mapping[str, Self] | None = None\n    pair: tuple[Self, ...] = ()\n    only: Self | int = 0\n"
+        f"class Node(State):\n    name: str\n    next: {w('Self | None')} = None\n    kids: {w('Sequence[Self]')} = ()\n    table: {w('Mapping[str, Self] | None')} = None\n    pair: {w('tuple[Self, ...]')} = ()\n    only: {w('Self | int')} = 0\n"
         "class Folder(Node):\n    extra: int = 0\n"
         "class Link(Node):\n    target: str = ''\n"
         "class SubFolder(Folder):\n    deep: bool = False\n"
@@ -452,7 +499,7 @@ def self_reference_probes(R: Recorder) -> None:
         for vname, value in made.items():
             conforms = isinstance(value, cls)
             for attr, shape in shapes.items():
-                label = f"{cname}({attr}={'[' if attr == 'kids' else ''}{vname} instance)"
+                label = f"{cname}({attr}={'[' if attr == 'kids' else ''}{vname} instance)" + (f" declared inside {wrapper}[...]" if wrapper else "")
                 case = {"self_reference": label}
                 try:
                     inst = cls(name="x", **{attr: shape(value)})
@@ -461,7 +508,7 @@ def self_reference_probes(R: Recorder) -> None:
                     status = ("raised", exc)
                 R.case(case, nontrivial=True)
                 R.count("self_reference_probes")
-                where = {"top": "self", "at": attr, "origin": "self-reference", "declared_in_base": cname != "Node"}
+                where = {"top": "self", "at": attr, "origin": "self-reference", "declared_in_base": cname != "Node", **({"wrapper": wrapper} if wrapper else {})}
                 if conforms:
                     R.monitor("accepts-conforming", status[0] == "ok", where={**where, "kind": "rejected-conforming", "error": type(status[1]).__name__ if status[0] != "ok" else None},
                               detail=f"{label}: Self means {cname} there and the value is an instance of it; construction raised {status[1]!r}", case=case)
